@@ -38,7 +38,7 @@ func decoderRange(t typeInfo) (lo, hi float64) {
 
 func f32hex(f float32) string { return fmt.Sprintf("f %08x", math.Float32bits(f)) }
 
-func (r *run) floatInputs(lo, hi float64, thorough bool) []float32 {
+func (r *run) floatInputs(lo, hi float64, thorough bool, nrand int) []float32 {
 	var xs []float32
 	add := func(f float32) {
 		xs = append(xs, f)
@@ -57,7 +57,7 @@ func (r *run) floatInputs(lo, hi float64, thorough bool) []float32 {
 			add(float32(m * math.Pow(2, float64(e)) / 100))
 		}
 	}
-	n := 3000
+	n := nrand
 	if thorough {
 		n = 200000
 	}
@@ -78,9 +78,9 @@ func (r *run) floatInputs(lo, hi float64, thorough bool) []float32 {
 	return xs
 }
 
-func (r *run) c07Float(nt numType, thorough bool) {
+func (r *run) c07Float(nt numType, thorough bool, nrand int) {
 	t := nt.t
-	xs := r.floatInputs(nt.lo, nt.hi, thorough)
+	xs := r.floatInputs(nt.lo, nt.hi, thorough, nrand)
 	type pt struct{ x, y float64 }
 	var pts []pt
 	satHi, satLo := "", ""
@@ -326,8 +326,12 @@ func (r *run) c07(budget int, thorough bool) {
 				nt.step = func([]byte) float64 { return 0.01 }
 			}
 			quick := thorough || map[string]bool{"DPT_9001": true, "DPT_9002": true, "DPT_9004": true, "DPT_9027": true, "DPT_5001": true, "DPT_5003": true, "DPT_8003": true, "DPT_8004": true, "DPT_8010": true}[t.name] || r.rnd.Intn(4) == 0
+			// every type gets the corner inputs (bounds, their float neighbours, every exponent-switch
+			// point); the random part is smaller for the types outside the main list in the quick tier
 			if quick {
-				r.c07Float(nt, thorough)
+				r.c07Float(nt, thorough, 3000)
+			} else {
+				r.c07Float(nt, thorough, 400)
 			}
 		case t.kind == reflect.Struct || t.kind == reflect.String:
 			r.c07Struct(t, thorough)
